@@ -12,7 +12,7 @@
 # See the License for the specific language governing permissions and
 # limitations under the License.
 import sys
-from ast import NodeTransformer
+from ast import NodeTransformer, NodeVisitor
 
 from .astrewriter import ASTRewriter
 from .constantfolder import ConstantFolder
@@ -30,15 +30,33 @@ class IndexReplacer(NodeTransformer):
         return self.visit(node.value)
 
 
-def ast2ast(a_tree):
+class FunctionNames(NodeVisitor):
+    """Collect the names of the functions defined inside a function"""
+
+    def __init__(self):
+        self.names = []
+
+    def visit_FunctionDef(self, node):
+        self.names.append(node.name)
+        self.generic_visit(node)
+
+
+def ast2ast(a_tree, user_functions=[]):
     # print(ast.dump(a_tree))
+
+    # A function of the user may be called like a builtin (abs, sum, max, ...): calls to
+    # it are calls to that function, they are not folded / rewritten as the builtin
+    fnames = FunctionNames()
+    for st in getattr(a_tree, "body", []):
+        fnames.visit(st)
+    user_functions = list(user_functions) + fnames.names
 
     # Replace indexes with its content if python < 3.9
     if sys.version_info < (3, 9):
         a_tree = IndexReplacer().visit(a_tree)
 
     # Fold constants
-    a_tree = ConstantFolder().visit(a_tree)
+    a_tree = ConstantFolder(user_functions).visit(a_tree)
 
     # Replace Type Annotations
     a_tree = ReplaceTypeAnn().visit(a_tree)
@@ -47,10 +65,10 @@ def ast2ast(a_tree):
     a_tree = ReplaceMultiTargetAssign().visit(a_tree)
 
     # Rewrite the ast
-    a_tree = ASTRewriter().visit(a_tree)
+    a_tree = ASTRewriter(user_functions=user_functions).visit(a_tree)
 
     # Fold constants again
-    a_tree = ConstantFolder().visit(a_tree)
+    a_tree = ConstantFolder(user_functions).visit(a_tree)
 
     # print(ast.dump(a_tree))
     return a_tree
